@@ -119,6 +119,26 @@ def stepFrames (line : String) : String :=
     | _, _ => "bad-op"
   | _ => "bad-op"
 
+/-- `display` engine: `root ; adj0 | adj1 | …` — object `i` is a list whose items are the lists `adj_i` (space separated
+    indices); answers the text `Display` writes for the root and the deepest nesting of `fmt_nested` -/
+def stepDisplay (line : String) : String :=
+  match (line.trimAscii.toString.splitOn ";").map (fun s => s.trimAscii.toString) with
+  | [root, adj] =>
+    match root.toNat?, allSome ((adj.splitOn "|").map fun a => allSome ((words a).map (·.toNat?))) with
+    | some r, some rows =>
+      let g : DisplayGraph := fun a => rows.getD a []
+      let fuel := LaytheVerif.Gen.Limits.displayMaxDepth + 1
+      match displayDepth g fuel [] r with
+      | some d => s!"depth={d} text={displayText g fuel [] r}"
+      | none => "out-of-fuel"
+    | _, _ => "bad-op"
+  | _ => "bad-op"
+
+def stepHook (line : String) : String :=
+  match Signal.all.find? (·.name == line.trimAscii.toString) with
+  | some s => reprStr (hookStep s)
+  | none => "bad-op"
+
 partial def loop (h : IO.FS.Stream) (out : IO.FS.Stream) (step : String → String) : IO Unit := do
   let line ← h.getLine
   if line.isEmpty then return ()
@@ -131,4 +151,6 @@ def main (args : List String) : IO UInt32 := do
   match args with
   | [] | ["sig"] => loop stdin stdout stepSig; return 0
   | ["frames"] => loop stdin stdout stepFrames; return 0
-  | _ => IO.eprintln "usage: drv_sig [sig|frames]"; return 2
+  | ["display"] => loop stdin stdout stepDisplay; return 0
+  | ["hook"] => loop stdin stdout stepHook; return 0
+  | _ => IO.eprintln "usage: drv_sig [sig|frames|display|hook]"; return 2
